@@ -49,6 +49,11 @@ def cases(draw, maxfr=16, maxdim=20):
                 imtype=imtype)
 
 
+def _h(case):
+    import zlib
+    return zlib.crc32(repr(sorted(case.items())).encode())
+
+
 SCALES = {"small": 2.0 ** -10, "tiny": 2.0 ** -30}
 
 
@@ -299,10 +304,10 @@ def check(case, rec=None):
     # files: EDF frames on disk, rotation angle in the header ("Omega", or another motor named with --omega_motor)
     # or given by -T start -S step with --OmegaOverRide; reader thread or --singleThread; several -t at once
     scr = "none"
-    if case.get("imtype", "f32") in ("f32", "u16", "i32", "f64") and (case["seed"] * 2654435761 >> 11) % 6 == 0:
+    if case.get("imtype", "f32") in ("f32", "u16", "i32", "f64") and _h(case) % 6 == 0:
         import os, shutil, argparse, contextlib, fabio
-        mode = ["Omega", "motor", "override"][(case["seed"] * 2654435761 >> 15) % 3]
-        one = bool((case["seed"] * 2654435761 >> 19) % 2)
+        mode = ["Omega", "motor", "override"][(_h(case) // 6) % 3]
+        one = bool((_h(case) // 18) % 2)
         scr = "script:%s:%s" % (mode, "one_thread" if one else "reader_thread")
         d = os.path.join(os.environ.get("VERIF_TMP", "."), "c12_script_%d" % os.getpid())
         shutil.rmtree(d, ignore_errors=True)
